@@ -23,9 +23,15 @@ def pt(p):
 
 
 def concretise(c, rnd):
-    a = geom.ref_element(rnd.choice(["rect", "rect", "circle", "box"]), c["a"], "a")
-    bk = rnd.choice(["rect", "ellipse", "circle", "line"])
-    b = geom.ref_element(bk, c["b"], "b", rnd)
+    def as_use(box, id_):
+        # the element is an instance (<use>) of a shape kept in <defs>, moved into place by x / y
+        w, h = box["x2"] - box["x1"], box["y2"] - box["y1"]
+        return (f'<defs><rect id="t{id_}" x="0" y="0" width="{q(w)}" height="{q(h)}"/></defs>'
+                f'<use id="{id_}" href="#t{id_}" x="{q(box["x1"])}" y="{q(box["y1"])}"/>')
+    ak = rnd.choice(["rect", "rect", "circle", "box", "use"])
+    a = as_use(c["a"], "a") if ak == "use" else geom.ref_element(ak, c["a"], "a")
+    bk = rnd.choice(["rect", "ellipse", "circle", "line", "use"])
+    b = as_use(c["b"], "b") if bk == "use" else geom.ref_element(bk, c["b"], "b", rnd)
     f = c["form"]
     ct = c["ctype"]
     name = "polyline" if ct == "corner" else "line"
